@@ -125,6 +125,7 @@ def parseOuter (l : Line) : Option OuterCancel.L :=
     match l.get? "p" with
     | some "cancelled" => do let v ← l.nat? "v"; some (.probe t (.cancelled (v != 0)))
     | some "live" => some (.probe t .notCancelled)
+    | some "quiet" => some (.probe t .quiet)
     | _ => none
   | _ => none
 
